@@ -56,17 +56,30 @@ def run_stream(sm: Any, frames: Sequence[Frame]) -> Tuple[Dict[int, List[bytes]]
     return out, None
 
 
+FORMATS = ("console", "log", "fdlog", "console-lc", "log-lc", "fdlog-lc", "log-iface")
+
+
 def render(frames: Sequence[Frame], fmt: str) -> str:
+    """candump-style text: console output, compact log (-l), CAN-FD log; hex digits in upper
+    or lower case (both are written by common tools), other interface names"""
     lines = []
     t = 1700000000.0
+    lower = fmt.endswith("-lc")
+    base = fmt.split("-")[0]
+    iface = "vcan_1-x" if fmt == "log-iface" else "can0"
+
+    def hx(b: bytes) -> str:
+        return b.hex() if lower else b.hex().upper()
+
     for cid, data in frames:
         t += 0.001
-        if fmt == "console":
-            lines.append(f"  can0  {cid:03X}   [{len(data)}]  " + " ".join(f"{b:02X}" for b in data))
-        elif fmt == "log":
-            lines.append(f"({t:.6f}) can0 {cid:03X}#{data.hex().upper()}")
-        elif fmt == "fdlog":
-            lines.append(f"({t:.6f}) can0 {cid:03X}##1{data.hex().upper()}")
+        ident = f"{cid:03x}" if lower else f"{cid:03X}"
+        if base == "console":
+            lines.append(f"  {iface}  {ident}   [{len(data)}]  " + " ".join(hx(bytes([b])) for b in data))
+        elif base == "log":
+            lines.append(f"({t:.6f}) {iface} {ident}#{hx(data)}")
+        elif base == "fdlog":
+            lines.append(f"({t:.6f}) {iface} {ident}##1{hx(data)}")
     return "\n".join(lines) + "\n"
 
 
@@ -166,7 +179,7 @@ def judge(col: common.Collector, part: str, frames: Sequence[Frame],
         for cid, data in frames:
             for rid, pl in sm2.decode_rx_frame(cid, data):
                 flat.append((rid, bytes(pl)))
-        for fmt in ("console", "log", "fdlog"):
+        for fmt in FORMATS:
             sm3 = IsoTpStateMachine(list(ids))
             try:
                 res = asyncio.run(_read_all(sm3, render(frames, fmt)))
